@@ -38,7 +38,7 @@ if os.path.exists(sp):
 rows2 = ["| prop | changed file(s) | what the change does / trigger | caught by | history |", "|------|-----------------|-------------------------------|-----------|---------|"]
 for p in props:
     pid = p["id"]
-    for sub in ["", "round2", "round3"]:
+    for sub in ["", "round2", "round3", "round4", "round5"]:
         sm = os.path.join(here, "seeded", pid, sub, "meta.json")
         if not os.path.exists(sm):
             continue
